@@ -3,7 +3,7 @@ import AioftpModel.Model.Logs
 /-! Helper lemmas for C20: `rstrip` over concatenation, `partition(" ")`, verbs that lower-case to a
     censored command contain no white space. -/
 
-namespace Model
+namespace Model.Logs
 open Py
 
 theorem dropWhile_eq_nil_iff' {α : Type} (p : α → Bool) (l : List α) :
@@ -154,4 +154,4 @@ theorem censored_verb_no_space (verb : Str) (h : censorList.contains (lower verb
 
 theorem stars_length (n : Nat) : (stars n).length = n := by simp [stars]
 
-end Model
+end Model.Logs
